@@ -149,6 +149,54 @@ def observe(exe, cfg, sigat, wd, tag, track=None, inherit_ignored=False):
     return dict(rc=r["rc"], log=r["log"], cmd=r["cmd"] + ("   [env INOVESA_VERIF_SIGINT_AT=%s%s]" % (env.get("INOVESA_VERIF_SIGINT_AT", ""), "; started with SIGINT ignored (trap '' INT)" if inherit_ignored else "")), labels=labels, doc=doc, word=word)
 
 
+FILE_ONLY = set(["O%d" % i for i in range(2, 8)] + ["F%d" % i for i in range(0, 11)])   # hook points inside `if (hdf_file != nullptr)` blocks
+
+
+def nofile_problems(exe, term, wd, tag):
+    """the same behaviour of a run that writes no results file (--run_anyway, no -o): the hook points inside the file blocks are not passed, everything else
+    is as the model says - the step in progress is completed, no new one started, the same final message, exit status 0.  A signal that the model
+    delivers at a file-only point is delivered at the next point the run passes."""
+    trace = term["trace"]
+    keep = [i for i, lab in enumerate(trace) if lab not in FILE_ONLY]
+    want = [trace[i] for i in keep]
+    sig = []
+    for h in term["sigAt"]:                       # 1-based hit numbers in the model's trace
+        nxt = [k for k, i in enumerate(keep) if i >= h - 1]
+        if not nxt:
+            return [], None                       # (a signal after the last point a file-less run passes: nothing to replay)
+        sig.append(nxt[0] + 1)
+    if len(set(sig)) != len(sig):
+        return [], None
+    # the signal lands at another point than in the model: only behaviours whose outcome does not depend on that are replayed (same loop iteration / same block)
+    for h, g in zip(term["sigAt"], sig):
+        if trace[h - 1] != want[g - 1] and trace[h - 1][0] != want[g - 1][0]:
+            return [], None
+    tr = os.path.join(wd, "trace_%s_nofile.txt" % tag)
+    env = {"INOVESA_VERIF_TRACE": tr}
+    if sig:
+        env["INOVESA_VERIF_SIGINT_AT"] = ",".join(str(x) for x in sig)
+    r = pl.run(exe, args_of(term["cfg"]) + ["--run_anyway", "true"], wd, out=None, env_extra=env)
+    labels = []
+    if os.path.exists(tr):
+        with open(tr) as f:
+            labels = [ln.split()[1] for ln in f if len(ln.split()) == 2]
+        os.remove(tr)
+    word = ""
+    for ln in r["log"].replace("\r", "\n").splitlines():
+        if ln.rstrip().endswith("Finished.") or ln.rstrip().endswith("Aborted."):
+            word = ln.rstrip().split()[-1]
+    P = []
+    cmd = r["cmd"] + "   [env INOVESA_VERIF_SIGINT_AT=%s]" % env.get("INOVESA_VERIF_SIGINT_AT", "")
+    if r["rc"] != 0:
+        P.append(("no-results-file/exit-status", "run without a results file: exit status %s   (%s)" % (r["rc"], cmd)))
+    if labels != want:
+        k = next((i for i, (a, b) in enumerate(zip(labels, want)) if a != b), min(len(labels), len(want)))
+        P.append(("no-results-file/label-trace", "run without a results file: trace diverges from the model's (file-only points removed) at hit %d: binary %s model %s   (%s)" % (k + 1, labels[k:k + 3], want[k:k + 3], cmd)))
+    if word != term["word"]:
+        P.append(("no-results-file/final-message", "run without a results file: log ends with %r, model says %r   (%s)" % (word, term["word"], cmd)))
+    return P, labels
+
+
 def final_record_problems(term, ob, dense):
     """'one final record for the state reached': the last record of a run that stopped after s steps holds what a run of the same physics that writes
     every step holds for step s - dataset by dataset, bit for bit (dense = observation of that run: outstep 1, every phase space saved)"""
